@@ -249,7 +249,7 @@ func TestC17(t *testing.T) {
 		}
 		alpha := uniform(rt, "alphabet", 0, 4)
 		pw := c17Password(rt, "pw", n, alpha)
-		cost := []int{4, 4, 4, 4, 5, 5, 6}[uniform(rt, "cost", 0, 6)]
+		cost := []int{4, 4, 4, 4, 4, 4, 4, 4, 5, 5, 5, 5, 6, 6, 7, 8}[uniform(rt, "cost", 0, 15)]
 		hasNUL := c17Has(pw, func(b byte) bool { return b == 0 })
 		hasHigh := c17Has(pw, func(b byte) bool { return b >= 0x80 })
 		classes := []string{"mem=" + memClasses[c17Mem], "alphabet=" + c17AlphaNames[alpha], fmt.Sprintf("cost=%d", cost), "len=" + gen.LenClass(n, 72)}
@@ -399,6 +399,110 @@ func TestC17(t *testing.T) {
 	}
 	c.Exhaustive("72-byte boundary: lengths 66..80 x 3 NUL variants x change position 64..len (this shard)", n)
 	c17GrammarTables(c, t)
+	c17CostField(c, t, haveClib)
+}
+
+// c17CostField covers the cost dimension value by value.  (a) Parse level:
+// Cost() on syntactically valid hashes carrying every two-digit cost 00..99
+// (the cost field of a valid hash rewritten; Cost does not verify the digest)
+// must return that cost for 04..31 and InvalidCostError otherwise, for every
+// version form the package accepts.  (b) Full round trips beyond the cheap
+// costs: GenerateFromPassword, CompareHashAndPassword, reference-made and
+// libxcrypt-made hashes at costs 7..10 (thorough: ..12).
+func c17CostField(c *ev.Collector, t *testing.T, haveClib bool) {
+	fatal := func(format string, args ...any) {
+		what := fmt.Sprintf(format, args...)
+		c.Violation(what, "")
+		t.Fatalf("VF-VIOLATION: property=C17 %s", what)
+	}
+	pw := []byte("cost field")
+	valid := refkdf.Bcrypt(pw, detBytes("c17.cost.salt", 0, 16), 4, 'a')
+	idx, n := 0, 0
+	for _, form := range []string{"$2$", "$2a$", "$2b$", "$2y$", "$2x$"} {
+		for cv := 0; cv < 100; cv++ {
+			idx++
+			if !ev.Mine(idx) {
+				continue
+			}
+			c17Mem = idx
+			h := []byte(form + fmt.Sprintf("%02d", cv) + valid[6:])
+			got, err, pan := c17Cost(h)
+			if pan != nil {
+				fatal("Cost(%q): %v", h, pan)
+			}
+			if cv >= bcrypt.MinCost && cv <= bcrypt.MaxCost {
+				if err != nil || got != cv {
+					fatal("Cost(%q) = %d, %v: a well-formed hash with cost %d (within MinCost..MaxCost) must report its cost", h, got, err, cv)
+				}
+			} else {
+				var ice bcrypt.InvalidCostError
+				if !errors.As(err, &ice) || int(ice) != cv {
+					fatal("Cost(%q) = %d, %v: want InvalidCostError(%d)", h, got, err, cv)
+				}
+				if cerr, pan := c17Compare(h, pw); pan != nil || cerr == nil {
+					fatal("CompareHashAndPassword(%q) = %v %v: want an error for cost %d", h, cerr, pan, cv)
+				}
+			}
+			c.Case(true, fmt.Sprintf("costfield|%s|%02d", form, cv), "field:cost-parse", fmt.Sprintf("field:cost=%02d", cv))
+			n++
+		}
+	}
+	c.Exhaustive("Cost() on valid hashes with every cost field 00..99 x 5 accepted version forms (this shard)", n)
+	m := 0
+	for cost := 7; cost <= ev.Scale(10, 12); cost++ {
+		idx++
+		if !ev.Mine(idx) {
+			continue
+		}
+		c17Mem = idx
+		p := append([]byte("round trip at cost "), byte('0'+cost%10), 0xe9)
+		hash, gerr, pan := c17Generate(p, cost)
+		if pan != nil || gerr != nil {
+			fatal("GenerateFromPassword(%q, %d): %v %v", p, cost, gerr, pan)
+		}
+		minor, pc, salt, _, ok := c17StrictParse(hash)
+		if !ok || minor != 'a' || pc != cost {
+			fatal("GenerateFromPassword(%q, %d) = %q: not a canonical $2a$ hash with that cost", p, cost, hash)
+		}
+		if want := refkdf.Bcrypt(p, salt, uint(cost), 'a'); want != string(hash) {
+			fatal("GenerateFromPassword(%q, %d) = %s, reference bcrypt with the same salt gives %s", p, cost, hash, want)
+		}
+		if gc, err, pan := c17Cost(hash); pan != nil || err != nil || gc != cost {
+			fatal("Cost(%s) = %d, %v, %v; want %d", hash, gc, err, pan, cost)
+		}
+		if err, pan := c17Compare(hash, p); pan != nil || err != nil {
+			fatal("CompareHashAndPassword(%s, %q) of the hashed password itself (cost %d): %v %v", hash, p, cost, err, pan)
+		}
+		if err, pan := c17Compare(hash, append([]byte{}, p[:len(p)-1]...)); pan != nil || !errors.Is(err, bcrypt.ErrMismatchedHashAndPassword) {
+			fatal("CompareHashAndPassword(%s, truncated password) (cost %d): %v %v; want ErrMismatchedHashAndPassword", hash, cost, err, pan)
+		}
+		fminor := []byte{'b', 'y', 'a'}[cost%3]
+		fp := []byte("foreign at cost") // 7-bit: valid for $2a$ under libxcrypt too
+		fhash := refkdf.Bcrypt(fp, detBytes("c17.cost.fsalt", cost, 16), uint(cost), fminor)
+		origin := "ref.Bcrypt"
+		if haveClib {
+			lh, ok := clibkdf.Crypt(fp, fhash[:29])
+			if !ok || lh != fhash {
+				c.Inconclusive(fmt.Sprintf("oracles disagree at cost %d: crypt_rn = %q (%v), ref.Bcrypt = %s", cost, lh, ok, fhash))
+				t.Fatalf("VF-INCONCLUSIVE: oracles disagree at cost %d", cost)
+			}
+			origin = "libxcrypt"
+			re := append([]byte{}, hash...)
+			re[2] = 'b'
+			if got, ok := clibkdf.Crypt(p, string(re)); !ok || got != string(re) {
+				fatal("cost-%d hash %s of %q made by GenerateFromPassword does not verify under libxcrypt (crypt_rn gives %q)", cost, hash, p, got)
+			}
+		}
+		if err, pan := c17Compare([]byte(fhash), fp); pan != nil || err != nil {
+			fatal("foreign cost-%d hash %s (%s) of %q does not verify here: %v %v", cost, fhash, origin, fp, err, pan)
+		}
+		if gc, err, pan := c17Cost([]byte(fhash)); pan != nil || err != nil || gc != cost {
+			fatal("Cost(%s) = %d, %v, %v; want %d", fhash, gc, err, pan, cost)
+		}
+		c.Case(true, fmt.Sprintf("cost-roundtrip|%d|%s", cost, origin), "field:cost-roundtrip", fmt.Sprintf("cost=%d", cost), "foreign="+origin)
+		m++
+	}
+	c.Exhaustive("full Generate/Compare/foreign-hash round trips at every cost 7..10 (thorough: ..12) (this shard)", m)
 }
 
 // c17GrammarTables derives malformed hash strings by grammar from valid hashes
